@@ -203,6 +203,7 @@ def injections(schema):
 
 def compile_and_build(text):
     m, _ = lvs()
+    m.compile_lvs(text)                  # (never a first compilation only: the text is compiled twice, the second model is used)
     model = m.compile_lvs(text)
     ck = m.Checker(model, L.lib_fns())
     return ck
